@@ -20,7 +20,7 @@ RULE = (
     "re-expression in another unit; after the same category is registered again (override) with another limit "
     "configuration the verdicts follow the definition in force. Registration oracle: an accepted registration has default_unit in units(type), a "
     "default value that satisfies the limits, Scalar(category).IsValid(); an inconsistent one raises and leaves the "
-    "registry unchanged. Non-trivial = limits present and a value within 3 ulp of a boundary, or an array with a NaN "
+    "registry unchanged. Results of + and - between objects of the category written in different units (Scalar, list, ndarray) are validated by their amount like objects that were written down. Non-trivial = limits present and a value within 3 ulp of a boundary, or an array with a NaN "
     "and an out-of-range element; key = (limit config, unit, container, verdict)."
 )
 ASSUMPTIONS = ["an infinite value whose float conversion to the default unit is NaN (0*inf in the POSC formula) satisfies no limit, exactly as the database conversion says", "NaN inside tuple-of-tuples containers is not asserted (unspecified by the statement)", "the reference uses the same db float conversion as the statement names, so boundary cases are compared exactly"]
@@ -312,6 +312,7 @@ class Checker:
                             ctx.fail("verdict_depends_on_unit", case, "%r %s is %s but the same amount %r %s is not" % (x, u, "valid" if want else "invalid", y, w))
         self.check_array(cfg, case, u, xs, other)
         self.check_nested(cfg, case, u, xs)
+        self.check_results_of_arithmetic(cfg, case, u, w, xs)
         # the same category is registered again (override) with the other configuration, after quantities and verdicts of
         # the old definition exist: validation follows the definition in force
         if case.get("other") is not None:
@@ -327,6 +328,44 @@ class Checker:
             ctx.cls("exclusive_limit")
         if u != cfg["default_unit"]:
             ctx.cls("unit_differs_from_default")
+
+    def check_results_of_arithmetic(self, cfg, case, u, w, xs):
+        """an object of the category that came out of + or - (operands in different units) is validated like one that
+        was written down: by its amount in the category's default unit"""
+        import numpy
+
+        from barril.units import Array, Scalar
+
+        ctx, db = self.ctx, self.db
+        name = cfg["name"]
+        fin = [x for x in xs if math.isfinite(x)][:2]
+        if not fin or w == u:
+            return
+        for x in fin:
+            y = db.Convert(cfg["qt"], u, w, x)
+            if not math.isfinite(y):
+                continue
+            for sym in "+-":
+                for kind in ("scalar", "list", "ndarray"):
+                    if kind == "scalar":
+                        a, b = Scalar(x, u, name), Scalar(y, w, name)
+                    else:
+                        mk = list if kind == "list" else numpy.array
+                        a, b = Array(mk([x, x]), u, name), Array(mk([y, y]), w, name)
+                    r = a + b if sym == "+" else a - b
+                    if r.GetCategory() != name:
+                        ctx.cls("arithmetic_result_of_another_category")
+                        continue
+                    rv = r.GetValue() if kind == "scalar" else float(list(r.GetValues())[0])
+                    v = self.amount(cfg, r.GetUnit(), rv)
+                    if not math.isfinite(v) or self.near_boundary(cfg, v):
+                        continue
+                    want, _why = satisfies(v, cfg)
+                    ctx.ev()
+                    got = r.IsValid()
+                    ctx.cls("arithmetic_result_validated")
+                    if got != want:
+                        ctx.fail("verdict_wrong:result_of_%s:%s" % ("sum" if sym == "+" else "difference", "accepts_invalid" if got else "rejects_valid"), case, "%r %s %r = %r (amount %r %s): IsValid()=%r, limits %r say %r" % (a, sym, b, r, v, cfg["default_unit"], got, _lim(cfg), want))
 
     def value_from(self, cfg, u, spec):
         """spec: ("raw", x) a value in unit u | ("bound", which, ulps) boundary expressed in u, shifted by ulps | ("nan",) | ("inf", sign)"""
